@@ -164,10 +164,29 @@ def rule_limit_guards(ctx, cfg='prod-all'):
              kg.span, fact={'proved_min_len_at_hash': lo}, expected=32)
     # key_info: the i2osp::<2> argument
     i2 = [(bi, t) for bi, t in kg.calls() if (local_target(eng, t) or '').endswith('i2osp')]
-    if len(i2) != 1:
-        raise AnchorMissing('i2osp call in key_gen')
-    term = z.term_op(i2[0][1]['args'][0])
-    ub = z.upper_bound(term, i2[0][0])
+    term, at = None, None
+    if len(i2) == 1:
+        term, at = z.term_op(i2[0][1]['args'][0]), i2[0][0]
+    elif not i2:
+        # the 2-octet length prefix may be written by a helper that is generic in the width (`prefixed::<2>(key_info)`): the value it encodes,
+        # in the terms of this call
+        for bi, t in kg.calls():
+            tgt = local_target(eng, t)
+            if not tgt or (t.get('cargs') or []) != ['2'] or tgt not in prog.bodies:
+                continue
+            cgm = za.resolve_cargs(z, t, tgt)
+            if not cgm:
+                continue
+            za.summary_spec(tgt, cgm)
+            hz = za.zf_spec(tgt, cgm)
+            for hbi, ht in hz.body.calls():
+                if (local_target(eng, ht) or '').endswith('i2osp') and ht['args']:
+                    ct = za.subst(z, t, hz.term_op(ht['args'][0]), tgt=tgt)
+                    if ct is not None:
+                        term, at = ct, bi
+    if term is None:
+        raise AnchorMissing('i2osp call in key_gen (directly or through a width-generic helper)')
+    ub = z.upper_bound(term, at)
     yield Ob('RF-L', '%s#limit:key_info' % kg.path, ub == 65535, 'key_info longer than 65535 octets is refused before its length is encoded on 2 octets',
              kg.span, fact={'proved_max_len_at_i2osp': ub, 'term': tfmt(term)}, expected=65535)
     # the length encoded is the length of what is hashed after it
